@@ -49,12 +49,28 @@ Theorem C05_fallback_is_safe :
   (forall a b c, name_ok (fontFileName a b c)) /\
   (forall i t, name_ok (bookmarkFileName i t)) /\
   (forall req digs, digs <> [] -> Forall digit digs -> name_ok (multiFillCSVName req digs)) /\
-  (forall ps n, gobFileName ps = Ok n -> name_ok n).
+  (forall ps n, gobFileName ps = Ok n -> name_ok n) /\
+  (forall a b d1 d2, Forall byte_ok d1 -> Forall byte_ok d2 -> name_ok (metadataFileName a b d1 d2)).
 Proof.
   exact (conj PathOr_ok (conj attachmentName_ok (conj imageFileName_ok (conj fontFileName_ok
-        (conj bookmarkFileName_ok (conj multiFillCSVName_ok gobFileName_ok)))))).
+        (conj bookmarkFileName_ok (conj multiFillCSVName_ok (conj gobFileName_ok metadataFileName_ok))))))).
 Qed.
 Print Assumptions C05_fallback_is_safe.
+
+(* Split along bookmarks (writePageSpansSplitAlongBookmarks), for any list of bookmark titles
+   (arbitrary byte strings of any length), any output directory and any set of failing writes:
+   every part written is Join(outDir, name) with name = sanitize.Path(title) + ".pdf" (or
+   bookmark_N.pdf when the title is rejected) -- the title is sanitised as a whole BEFORE anything
+   else happens to it -- and is a direct child of Clean(outDir); the parts written are a prefix of
+   that list (all of it on success), and no failing path is written. *)
+Theorem C05_bookmark_split_stays_in_dir : forall fails d titles,
+  let r := splitAlongBookmarks fails d titles in
+  Forall (insideDir d) (fst r) /\
+  fst r = firstn (length (fst r)) (bookmarkPathsFrom d 0 titles) /\
+  (snd r = true -> fst r = bookmarkPathsFrom d 0 titles) /\
+  Forall (fun p => fails p = false) (fst r).
+Proof. exact splitAlongBookmarks_inside. Qed.
+Print Assumptions C05_bookmark_split_stays_in_dir.
 
 (* writeAttachments over an abstract file system (set of existing paths, O_EXCL create), for any
    number of attachments with arbitrary names, any directory, any token, any initial contents, and
@@ -92,6 +108,10 @@ Example C05_nonvacuous :
   /\ snd (writeAttachments nameTooLong [] [0x2F;0x6F] [[0x61]; [0x62]] [0x74]) = 0
   (* a 240-byte name: the output name fits NAME_MAX, its marker does not: status 2, nothing written *)
   /\ writeAttachments nameTooLong [] [0x2F;0x6F] [[0x62]; repeat 0x61 240; repeat 0x61 240] [0x74] = ([], [], 2)
+  (* a 312-byte bookmark title "../../pwned_AAA...": sanitised as a whole, too long to stage: nothing written *)
+  /\ splitAlongBookmarks stagedTooLong [0x2F;0x6F] [[0x2E;0x2E;0x2F;0x2E;0x2E;0x2F;0x70;0x77;0x6E;0x5F] ++ repeat 0x41 302] = ([], false)
+  /\ splitAlongBookmarks stagedTooLong [0x2F;0x6F] [[0x2E;0x2E;0x2F;0x78]; []]
+     = ([[0x2F;0x6F;0x2F;0x78;0x2E;0x70;0x64;0x66]; [0x2F;0x6F;0x2F;0x62;0x6F;0x6F;0x6B;0x6D;0x61;0x72;0x6B;0x5F;0x32;0x2E;0x70;0x64;0x66]], true)
   /\ nameTooLong (0x2F :: repeat 0x61 255) = false /\ nameTooLong (0x2F :: repeat 0x61 256) = true
   /\ join2 [0x2F;0x6F;0x2F;0x2E;0x2E;0x2F;0x70] [0x61] = [0x2F;0x70;0x2F;0x61].
 Proof. vm_compute. repeat split; reflexivity. Qed.
